@@ -112,6 +112,7 @@ pub fn run(o: &Opts) {
     }
   }
   rewriters(o, &mut out, &mut rng);
+  lsp_fix_all_disjoint(o, &mut out);
   out.finish("fix rules cut from the tree (string and object form; empty, wrapping, duplicating and multi-byte templates; expandStart / expandEnd) on corpus, CRLF and token-mutated sources of all 23 languages: \
               NodeMatch::make_edit for every match (range inside the file, on character boundaries, starting at the node and inside it unless an expansion is configured, replacement valid UTF-8) and \
               Node::replace_all (ordered, disjoint, spliced result valid UTF-8); `rewrite` transformations (source $V or $$$V, one rewriter with a kind rule and a plain or expanding fix): the transformed value against the captured text with the rewriter's own edits spliced in. non-trivial = replace_all produced an edit");
@@ -218,6 +219,56 @@ fn rewriters(o: &Opts, out: &mut Out, rng: &mut Rng) {
             json!({"stream": "c06-rewrite", "rule": yaml, "source": src}));
         }
       }
+    }
+  }
+}
+
+
+/// The language server's fix-all: the edits proposed for one document must be ordered and disjoint — also when
+/// `expandStart` / `expandEnd` make the replaced ranges of neighbouring matches share text.
+fn lsp_fix_all_disjoint(o: &Opts, out: &mut Out) {
+  use crate::cli::fresh_dir;
+  use crate::lsp::{did_open, run_lsp};
+  let dir = fresh_dir(&o.out, "lsp_fixall");
+  let cases: Vec<(&str, &str)> = vec![
+    ("id: drop\nlanguage: TypeScript\nmessage: m\nrule:\n  kind: identifier\n  regex: ^x$\n  inside: {kind: array}\nfix:\n  template: ''\n  expandStart: {regex: ','}\n  expandEnd: {regex: ','}\n",
+     "let v = [x, x, x]\nlet w = [a, x, x, b, x]\nlet u = [x]\n"),
+    ("id: arg\nlanguage: TypeScript\nmessage: m\nrule:\n  kind: number\n  inside: {kind: arguments}\nfix:\n  template: 'N'\n  expandEnd: {regex: ','}\n  expandStart: {regex: ','}\n",
+     "f(1, 2, 3, 4)\ng(1)\nh(a, 1, 2)\n"),
+    ("id: plain\nlanguage: TypeScript\nmessage: m\nrule:\n  pattern: foo($A)\nfix: bar($A)\n", "foo(foo(1)); foo(2)\n"),
+  ];
+  for (yaml, src) in cases {
+    let Some(rules) = load_rules(&[yaml.to_string()]) else { continue };
+    let uri = format!("file://{}/a.ts", std::fs::canonicalize(&dir).unwrap().to_string_lossy());
+    let fixall = json!({"jsonrpc": "2.0", "id": 10, "method": "textDocument/codeAction", "params": {"textDocument": {"uri": uri}, "range": {"start": {"line": 0, "character": 0}, "end": {"line": 0, "character": 0}}, "context": {"diagnostics": [], "only": ["source.fixAll"]}}});
+    out.checked();
+    out.count("lsp:fix-all-disjointness");
+    match run_lsp(rules, &dir, &[did_open(&uri, "typescript", 1, src), fixall]) {
+      Ok(resp) => {
+        let off = |line: u64, ch: u64| -> usize { src.split_inclusive('\n').take(line as usize).map(|l| l.len()).sum::<usize>() + ch as usize };
+        let mut edits: Vec<(usize, usize)> = vec![];
+        for m in resp.get(1).unwrap_or(&vec![]).iter().filter(|m| m["id"] == 10 && m.get("result").is_some()) {
+          for a in m["result"].as_array().cloned().unwrap_or_default() {
+            for e in a["edit"]["changes"][&uri].as_array().cloned().unwrap_or_default() {
+              let r = &e["range"];
+              edits.push((off(r["start"]["line"].as_u64().unwrap_or(0), r["start"]["character"].as_u64().unwrap_or(0)), off(r["end"]["line"].as_u64().unwrap_or(0), r["end"]["character"].as_u64().unwrap_or(0))));
+            }
+          }
+        }
+        if !edits.is_empty() {
+          out.nontrivial(&format!("{yaml}{edits:?}"));
+        }
+        let listed = edits.clone();
+        edits.sort();
+        let overlapping = edits.windows(2).find(|w| w[1].0 < w[0].1);
+        if let Some(w) = overlapping {
+          out.oracle_fail("", &format!("the language server's fix-all proposes overlapping edits {:?} and {:?} for one document (all: {listed:?}); source {src:?}", w[0], w[1]),
+            json!({"stream": "c06-lsp-fixall", "rule": yaml, "source": src}));
+        } else if listed != edits {
+          out.oracle_fail("", &format!("the language server's fix-all proposes its edits out of order: {listed:?}; source {src:?}"), json!({"stream": "c06-lsp-fixall", "rule": yaml, "source": src}));
+        }
+      }
+      Err(e) => out.oracle_fail("", &format!("language server failed: {e}"), json!({"stream": "c06-lsp-fixall"})),
     }
   }
 }
